@@ -228,8 +228,8 @@ func TestKnown(t *testing.T) {
 	})
 	stats.ProbeKnown(t, keyF4, "rhp/v3 RPCExecuteProgramResponse.DecodeFrom: make([]byte, r.OutputLength) with an unchecked length: OutputLength 2^62 panics, 2^24 allocates 16 MiB for 80 bytes", func() error {
 		mk := func(n uint64) []byte {
-			b := encLE(0, n)                // AdditionalCollateral (empty v1 currency), OutputLength
-			b = append(b, make([]byte, 32)...) // NewMerkleRoot
+			b := encLE(0, n)                          // AdditionalCollateral (empty v1 currency), OutputLength
+			b = append(b, make([]byte, 32)...)        // NewMerkleRoot
 			return append(b, encLE(0, 0, 0, 0, 0)...) // NewSize, no proof, no error, TotalCost, FailureRefund
 		}
 		in := mk(1 << 62)
